@@ -386,4 +386,7 @@ def check(run):
     check_alternation(run, A)
     check_plumbing(run, A)
     check_options(run, A)
+    from .. import reshape as _rs
+    _n = _rs.check_reshapes(run, A, [D + 'gcacgmm::GCACGMMTrainer.fit', D + 'vmfcacgmm::VMFCACGMMTrainer.fit', D + 'gcacgmm::GCACGMM.predict', D + 'vmfcacgmm::VMFCACGMM.predict'])
+    run.floor('reshapes of the integration models with resolved axis order', _n, 4)
     check_estimators(run, A)
